@@ -1311,11 +1311,13 @@ impl<R: Read> Vp8Decoder<R> {
             self.mbwidth = (self.frame.width + 15) / 16;
             self.mbheight = (self.frame.height + 15) / 16;
 
-            self.frame.ybuf = vec![0u8; self.frame.width as usize * self.frame.height as usize];
-            self.frame.ubuf =
-                vec![0u8; self.frame.chroma_width() as usize * self.frame.chroma_height() as usize];
-            self.frame.vbuf =
-                vec![0u8; self.frame.chroma_width() as usize * self.frame.chroma_height() as usize];
+            // The planes are reconstructed and loop-filtered at macroblock-aligned size (every
+            // macroblock is a full 16x16 / 8x8 block, as in the bitstream) and cropped to the
+            // display size once decoding is finished.
+            let num_macroblocks = usize::from(self.mbwidth) * usize::from(self.mbheight);
+            self.frame.ybuf = vec![0u8; num_macroblocks * 16 * 16];
+            self.frame.ubuf = vec![0u8; num_macroblocks * 8 * 8];
+            self.frame.vbuf = vec![0u8; num_macroblocks * 8 * 8];
 
             self.top_border = vec![127u8; self.frame.width as usize + 4 + 16];
             self.left_border = vec![129u8; 1 + 16];
@@ -1473,7 +1475,7 @@ impl<R: Read> Vp8Decoder<R> {
 
     fn intra_predict_luma(&mut self, mbx: usize, mby: usize, mb: &MacroBlock, resdata: &[i32]) {
         let stride = 1usize + 16 + 4;
-        let w = self.frame.width as usize;
+        let w = self.mbwidth as usize * 16;
         let mw = self.mbwidth as usize;
         let mut ws = create_border_luma(mbx, mby, mw, &self.top_border, &self.left_border);
 
@@ -1512,14 +1514,10 @@ impl<R: Read> Vp8Decoder<R> {
             *top = w;
         }
 
-        // Length is the remainder to the border, but maximally the current chunk.
-        let ylength = cmp::min(self.frame.height as usize - mby * 16, 16);
-        let xlength = cmp::min(self.frame.width as usize - mbx * 16, 16);
-
-        for y in 0usize..ylength {
-            for (ybuf, &ws) in self.frame.ybuf[(mby * 16 + y) * w + mbx * 16..][..xlength]
+        for y in 0usize..16 {
+            for (ybuf, &ws) in self.frame.ybuf[(mby * 16 + y) * w + mbx * 16..][..16]
                 .iter_mut()
-                .zip(ws[(1 + y) * stride + 1..][..xlength].iter())
+                .zip(ws[(1 + y) * stride + 1..][..16].iter())
             {
                 *ybuf = ws;
             }
@@ -1529,18 +1527,15 @@ impl<R: Read> Vp8Decoder<R> {
     fn intra_predict_chroma(&mut self, mbx: usize, mby: usize, mb: &MacroBlock, resdata: &[i32]) {
         let stride = 1usize + 8;
 
-        let w = self.frame.chroma_width() as usize;
+        let w = self.mbwidth as usize * 8;
 
         //8x8 with left top border of 1
         let mut uws = [0u8; (8 + 1) * (8 + 1)];
         let mut vws = [0u8; (8 + 1) * (8 + 1)];
 
-        let ylength = cmp::min(self.frame.chroma_height() as usize - mby * 8, 8);
-        let xlength = cmp::min(self.frame.chroma_width() as usize - mbx * 8, 8);
-
         //left border
         for y in 0usize..8 {
-            let (uy, vy) = if mbx == 0 || y >= ylength {
+            let (uy, vy) = if mbx == 0 {
                 (129, 129)
             } else {
                 let index = (mby * 8 + y) * w + ((mbx - 1) * 8 + 7);
@@ -1552,7 +1547,7 @@ impl<R: Read> Vp8Decoder<R> {
         }
         //top border
         for x in 0usize..8 {
-            let (ux, vx) = if mby == 0 || x >= xlength {
+            let (ux, vx) = if mby == 0 {
                 (127, 127)
             } else {
                 let index = ((mby - 1) * 8 + 7) * w + (mbx * 8 + x);
@@ -1570,11 +1565,7 @@ impl<R: Read> Vp8Decoder<R> {
             (129, 129)
         } else {
             let index = ((mby - 1) * 8 + 7) * w + (mbx - 1) * 8 + 7;
-            if index >= self.frame.ubuf.len() {
-                (127, 127)
-            } else {
-                (self.frame.ubuf[index], self.frame.vbuf[index])
-            }
+            (self.frame.ubuf[index], self.frame.vbuf[index])
         };
 
         uws[0] = u1;
@@ -1614,15 +1605,15 @@ impl<R: Read> Vp8Decoder<R> {
             }
         }
 
-        for y in 0usize..ylength {
+        for y in 0usize..8 {
             let uv_buf_index = (mby * 8 + y) * w + mbx * 8;
             let ws_index = (1 + y) * stride + 1;
 
-            for (((ub, vb), &uw), &vw) in self.frame.ubuf[uv_buf_index..][..xlength]
+            for (((ub, vb), &uw), &vw) in self.frame.ubuf[uv_buf_index..][..8]
                 .iter_mut()
-                .zip(self.frame.vbuf[uv_buf_index..][..xlength].iter_mut())
-                .zip(uws[ws_index..][..xlength].iter())
-                .zip(vws[ws_index..][..xlength].iter())
+                .zip(self.frame.vbuf[uv_buf_index..][..8].iter_mut())
+                .zip(uws[ws_index..][..8].iter())
+                .zip(vws[ws_index..][..8].iter())
             {
                 *ub = uw;
                 *vb = vw;
@@ -1802,10 +1793,11 @@ impl<R: Read> Vp8Decoder<R> {
 
     /// Does loop filtering on the macroblock
     fn loop_filter(&mut self, mbx: usize, mby: usize, mb: &MacroBlock) {
-        let luma_w = self.frame.width as usize;
-        let luma_h = self.frame.height as usize;
-        let chroma_w = self.frame.chroma_width() as usize;
-        let chroma_h = self.frame.chroma_height() as usize;
+        // dimensions of the macroblock-aligned planes
+        let luma_w = self.mbwidth as usize * 16;
+        let luma_h = self.mbheight as usize * 16;
+        let chroma_w = self.mbwidth as usize * 8;
+        let chroma_h = self.mbheight as usize * 8;
 
         let (filter_level, interior_limit, hev_threshold) = self.calculate_filter_parameters(mb);
 
@@ -2178,8 +2170,26 @@ impl<R: Read> Vp8Decoder<R> {
             }
         }
 
+        // Crop the macroblock-aligned planes to the display size.
+        let (width, height) = (self.frame.width as usize, self.frame.height as usize);
+        let chroma_width = self.frame.chroma_width() as usize;
+        let chroma_height = self.frame.chroma_height() as usize;
+        crop_plane(&mut self.frame.ybuf, self.mbwidth as usize * 16, width, height);
+        crop_plane(&mut self.frame.ubuf, self.mbwidth as usize * 8, chroma_width, chroma_height);
+        crop_plane(&mut self.frame.vbuf, self.mbwidth as usize * 8, chroma_width, chroma_height);
+
         Ok(self.frame)
     }
+}
+
+/// Keeps the top-left `width` x `height` samples of a plane stored with `stride` samples per row.
+fn crop_plane(plane: &mut Vec<u8>, stride: usize, width: usize, height: usize) {
+    if stride != width {
+        for y in 1..height {
+            plane.copy_within(y * stride..y * stride + width, y * width);
+        }
+    }
+    plane.truncate(width * height);
 }
 
 impl LumaMode {
